@@ -24,19 +24,19 @@ TParsed ==
   /\ pc = "done" /\ l = 1 /\ l' = 2 /\ UNCHANGED tid
   /\ LET o == Tr.obs IN
      /\ Chk("AcceptsOrRejects", o.ok = res.ok)
-     /\ (~res.ok) \/
+     /\ IF ~res.ok THEN TRUE ELSE
         ( /\ Chk("ElementCounts", ObsCounts(o) = CountsAsSet(res))
           /\ Chk("Phase", o.surface = res.surface /\ (res.surface => o.sgroup = res.sgroup))
           /\ Chk("Grain", o.grain = res.grain /\ (res.grain => o.ggroup = res.ggroup))
           /\ Chk("Charge", o.charge = ChargeOf(name))
           /\ Chk("IsAtom", o.is_atom = IsAtom(res, name))
           /\ Chk("MassNumber", o.massnumber = MassOf(res)) )
-     /\ (Tr.toks = <<>>) \/ ~Canonical(Tb, Tr.toks) \/
+     /\ IF (Tr.toks = <<>>) \/ ~Canonical(Tb, Tr.toks) THEN TRUE ELSE
         ( /\ Chk("RecoversIntendedComposition", o.ok /\ SameComposition([res EXCEPT !.counts = o.counts, !.surface = o.surface, !.sgroup = o.sgroup,
                                                                                !.grain = o.grain, !.ggroup = o.ggroup, !.ok = o.ok],
                                                                  Intended(EmptyRes, Tb, Tr.toks)))
           /\ Chk("GasCounterpart", o.gas_is_body) )
-     /\ (~Tr.garbage) \/ Chk("RejectsForeignCharacters", ~o.ok)
+     /\ IF ~Tr.garbage THEN TRUE ELSE Chk("RejectsForeignCharacters", ~o.ok)
   /\ UNCHANGED svars
 
 TNext == TSilent \/ TParsed
